@@ -140,14 +140,19 @@ def run_case(ctx, rng, h):
         # the root setter is outside the Coq model: it is exercised before the first dump, so that the refusals below are
         # also demanded of documents whose root was (re-)assigned
         r = rng.random()
-        if r < 0.25:
-            d.root = d.root
-            root_assign.append("self")
-        elif r < 0.35:
-            d.root = d.root.clone(deep=True)
-            root_assign.append("clone")
-        else:
-            root_assign.append(None)
+        try:
+            if r < 0.25:
+                d.root = d.root
+                root_assign.append("self")
+            elif r < 0.35:
+                d.root = d.root.clone(deep=True)
+                root_assign.append("clone")
+            else:
+                root_assign.append(None)
+        except Exception as e:  # noqa: BLE001
+            ctx.fail("assigning a document's own root (or a clone of it) as its root raises %s" % type(e).__name__,
+                     {"category": "root-setter", "doc": x, "exception": type(e).__name__}, classify)
+            root_assign.append("failed")
         real.docs.append(d)
     keep = c01.gen_pool(rng) + [impl.TextNode("L"), impl.new_comment_node("lc"), impl.new_processing_instruction_node("lp", "v")]
     real.dump_world()
@@ -334,6 +339,49 @@ def chain_cases(ctx):
                     ctx.fail("the trees differ after a refused call", dict(case, before=before, after=after), classify)
 
 
+def root_setter_cases(ctx):
+    """`document.root = node` demands a detached tag node: a node with a parent is refused with ValueError also when it
+    is an only child (or has only comment / PI siblings) and its tree belongs to no document; nothing changes.  The
+    root setter is outside the Coq model: checked on the implementation only."""
+    builds = [
+        ("only child", lambda: impl.new_tag_node("p", children=[impl.tag("k")])),
+        ("comment siblings", lambda: impl.new_tag_node("p", children=[impl.new_comment_node("a"), impl.tag("k"), impl.new_comment_node("b")])),
+        ("pi sibling", lambda: impl.new_tag_node("p", children=[impl.tag("k"), impl.new_processing_instruction_node("t", "v")])),
+        ("text sibling", lambda: impl.new_tag_node("p", children=["t", impl.tag("k")])),
+        ("nested only child", lambda: impl.new_tag_node("p", children=[impl.new_tag_node("q", children=[impl.tag("k")])])),
+    ]
+    for label, build in builds:
+        for filt in (None, (), impl.is_tag_node):
+            p = build()
+            with impl.altered_default_filters():
+                k = next(x for x in p.iterate_descendants() if isinstance(x, impl.TagNode) and x.local_name == "k")
+                kp = k.parent
+            doc = Document("<!--pro--><r>t</r><!--epi-->")
+            old = doc.root
+            before = (str(p), str(doc))
+            ctx.count(1, "root-setter")
+            ctx.nontrivial_case(("root-setter", label, str(filt)))
+            try:
+                if filt is None:
+                    doc.root = k
+                elif filt == ():
+                    with impl.altered_default_filters():
+                        doc.root = k
+                else:
+                    with impl.altered_default_filters(filt):
+                        doc.root = k
+                outcome = None
+            except Exception as e:  # noqa: BLE001
+                outcome = type(e).__name__
+            case = {"category": "root-setter", "offered": label, "filter": str(filt), "exception": outcome}
+            with impl.altered_default_filters():
+                same = doc.root is old and k.parent is kp and (str(p), str(doc)) == before
+            if outcome != "ValueError":
+                ctx.fail("an attached node was accepted as a document's root (%s)" % outcome, case, classify)
+            elif not same:
+                ctx.fail("the trees differ after a refused root assignment", case, classify)
+
+
 def fixed_cases(ctx):
     """the witnesses of repaired findings must not fail again"""
     for f in common.load_findings():
@@ -357,6 +405,7 @@ def run(ctx, args):
                 compare(ctx, r, v)
         validator_cases(ctx, 150 if quick else 3000)
         chain_cases(ctx)
+        root_setter_cases(ctx)
         fixed_cases(ctx)
     return ctx.finish(
         rule="states: 1-2 parsed documents (as in C01) + a pool of parentless nodes, 0-10 legal edits; then illegal "
